@@ -356,6 +356,91 @@ fn check_wide(case: &Case, p: &mut Probe) -> Check {
     Ok(())
 }
 
+/// matrices with 65..=400 columns (or rows) and few rows: mostly weight-0/1 columns (forest), the
+/// columns of weight 2 or 3 either spread over the whole matrix or confined to a window of 24, so
+/// that long runs of consecutive columns lie on no cycle while others do
+fn medium_strategy(_t: Tier) -> BoxedStrategy<Case> {
+    (3usize..=40, 65usize..=400, any::<bool>(), 0..3u8, any::<bool>(), any::<u16>(), any::<u64>())
+        .prop_map(|(small, big, tall, density, window, wstart, seed)| {
+            let mut s = seed;
+            let mut next = |m: usize| -> usize {
+                s = splitmix(s);
+                ((s >> 16) as usize) % m.max(1)
+            };
+            let w0 = idx(wstart, big);
+            let mut ones = BTreeSet::new();
+            for j in 0..big {
+                let heavy_ok = !window || (j >= w0 && j < w0 + 24);
+                let roll = next(100);
+                let heavy_share = if window { [30usize, 60, 90][density as usize] } else { [3usize, 12, 35][density as usize] };
+                let w = if roll < 10 {
+                    0
+                } else if heavy_ok && roll < 10 + heavy_share {
+                    2 + next(2)
+                } else {
+                    1
+                };
+                for _ in 0..w {
+                    // heavy columns inside a window share few rows, so that they close cycles
+                    let i = if window && w >= 2 { next(small.min(6)) } else { next(small) };
+                    ones.insert(if tall { (j, i) } else { (i, j) });
+                }
+            }
+            let mut h = if tall { Mat::new(big, small) } else { Mat::new(small, big) };
+            h.ones = ones.into_iter().collect();
+            Case { h, class: "medium".into() }
+        })
+        .prop_flat_map(|c| (shuffled(Just(c.h.clone())), Just(c)))
+        .prop_map(|(h, mut c)| {
+            c.h = h;
+            c
+        })
+        .boxed()
+}
+
+fn check_medium(case: &Case, p: &mut Probe) -> Check {
+    let m = &case.h;
+    let h = m.to_sparse();
+    let g = Graph::from_mat(m);
+    let (r, c) = (m.rows, m.cols);
+    let locals: Vec<Option<usize>> = (0..g.n()).map(|v| g.local_girth(v)).collect();
+    let girth = locals.iter().flatten().min().copied();
+    let got = guarded(|| h.girth()).map_err(|e| Fail::new("panic", format!("girth() panicked ({r} x {c}): {e}")))?;
+    ensure!(got == girth, "girth", "girth() = {got:?}, the shortest cycle has length {girth:?} ({r} x {c}, ones {:?})", m.ones);
+    for &b in &[0usize, 3, 4, 5, 6, 7, 8, 10, 12, 16, 1 << 40, usize::MAX] {
+        let got = guarded(|| h.girth_with_max(b)).map_err(|e| Fail::new("panic", format!("girth_with_max({b}) panicked ({r} x {c}): {e}")))?;
+        ensure!(got == bounded(girth, b), "girth-bounded", "girth_with_max({b}) = {got:?}, girth is {girth:?} ({r} x {c}, ones {:?})", m.ones);
+        p.inner += 1;
+    }
+    // columns in runs of 64 consecutive indices that lie on no cycle (or on none as short as the girth)
+    let quiet_block = (0..c.div_ceil(64)).any(|b| (b * 64..((b + 1) * 64).min(c)).all(|j| locals[r + j].is_none()));
+    p.class_if(girth.is_some() && quiet_block, "a-64-column-block-on-no-cycle");
+    p.class_if(girth.is_some(), "has-cycle");
+    p.class_if(girth.is_none(), "forest");
+    // local quantities from sixteen roots spread over the node set
+    let n = g.n();
+    for t in 0..16usize {
+        let v = (t * n / 16 + (m.ones.len() % 7)) % n;
+        let node = if v < r { Node::Row(v) } else { Node::Col(v - r) };
+        let want = locals[v];
+        let got = guarded(|| h.girth_at_node(node)).map_err(|e| Fail::new("panic", format!("girth_at_node({node:?}) panicked: {e}")))?;
+        ensure!(got == want, "local-girth", "girth_at_node({node:?}) = {got:?}, the shortest cycle through that node has length {want:?} ({r} x {c}, ones {:?})", m.ones);
+        for &b in &[0usize, 1, 2, 4, 6, 8, 9, 14] {
+            let got = guarded(|| h.girth_at_node_with_max(node, b)).map_err(|e| Fail::new("panic", format!("girth_at_node_with_max({node:?}, {b}) panicked: {e}")))?;
+            ensure!(got == bounded(want, b), "local-girth-bounded", "girth_at_node_with_max({node:?}, {b}) = {got:?}, local girth is {want:?} ({r} x {c}, ones {:?})", m.ones);
+        }
+        let res = guarded(|| h.bfs(node)).map_err(|e| Fail::new("panic", format!("bfs({node:?}) panicked: {e}")))?;
+        let d = g.dist(v, None);
+        ensure!(res.row_nodes_distance.len() == r && res.col_nodes_distance.len() == c, "bfs-shape", "bfs({node:?}) result has wrong lengths");
+        ensure!((0..r).all(|i| res.row_nodes_distance[i] == d[i]) && (0..c).all(|j| res.col_nodes_distance[j] == d[r + j]), "bfs", "bfs({node:?}): distances differ from the shortest paths ({r} x {c}, ones {:?})", m.ones);
+        p.inner += 10;
+    }
+    if girth.is_some() && quiet_block {
+        p.nontrivial();
+    }
+    Ok(())
+}
+
 fn regression(_t: Tier) -> Vec<Case> {
     // D6: a 4-cycle with a pendant path
     let mut h = Mat::new(4, 4);
@@ -389,6 +474,14 @@ pub fn property() -> Property {
                 strategy: |t| strategy(t.pick(10, 16)),
                 check,
                 health: &[("root-off-every-shortest-cycle", 0.20), ("root-on-no-cycle-in-cyclic-graph", 0.10)],
+            }),
+            Box::new(Sub {
+                name: "medium",
+                rule: "matrices with 3..=40 rows and 65..=400 columns (or transposed): column weights 0 (10 %), 1, or 2-3 (3 %, 12 % or 35 % of the columns anywhere, or 30-90 % of the columns of one window of 24 consecutive columns on a few shared rows, so that whole runs of 64 columns lie on no cycle while a cycle exists elsewhere), ones inserted in shuffled order: girth(), girth_with_max for bounds {0, 3..8, 10, 12, 16, 2^40, usize::MAX}, and from sixteen roots spread over the node set the local girth, eight bounded local girths and the BFS distances, against the same own oracles. Non-trivial = cyclic graph with an aligned block of 64 columns on no cycle",
+                cases: |t| t.pick(3_000, 150_000),
+                strategy: medium_strategy,
+                check: check_medium,
+                health: &[("a-64-column-block-on-no-cycle", 0.15)],
             }),
             Box::new(Sub {
                 name: "wide-index",
